@@ -871,6 +871,26 @@ func httpDocs(thorough bool, fn func(name string, d Doc)) {
 			fn("sources", d)
 		}
 	}
+	// (2b) several sources of the same kind (two csv files, two json files, two variable sets), in every order with a third kind
+	for _, kind := range []string{"file/csv", "file/json", "variables"} {
+		mkSrc := func(n int) Source {
+			name := fmt.Sprintf("src%d", n)
+			switch kind {
+			case "file/csv":
+				return Source{Name: name, Type: kind, File: "/users.csv", Fields: []string{"user_id", "name"}}
+			case "file/json":
+				return Source{Name: name, Type: kind, File: "/filter.json"}
+			}
+			return Source{Name: name, Type: kind, Variables: map[string]string{"b": name}}
+		}
+		other := Source{Name: "vars0", Type: "variables", Variables: map[string]string{"c": "1"}}
+		if kind == "variables" {
+			other = Source{Name: "filter0", Type: "file/json", File: "/filter.json"}
+		}
+		for _, srcs := range [][]Source{{mkSrc(1), mkSrc(2)}, {mkSrc(1), mkSrc(2), mkSrc(3)}, {mkSrc(1), other, mkSrc(2)}, {other, mkSrc(2), mkSrc(1)}} {
+			fn("sources", Doc{Sources: srcs, Requests: []Request{{Name: "r1", Method: "GET", URI: "/", Headers: map[string]string{}}}, Scenarios: scen})
+		}
+	}
 	// (3) scenarios: weight / min_waiting_time / request list forms, one or two scenarios, two requests
 	reqs := []Request{{Name: "r1", Method: "GET", URI: "/a", Headers: map[string]string{}}, {Name: "r2", Method: "POST", URI: "/b", Headers: map[string]string{"A": "1"}, Body: sp("x")}}
 	lists := [][]string{{"r1"}, {"r1(2)", "sleep(100)", "r2"}, {"r2(1,50)", "r1"}}
